@@ -10,6 +10,7 @@ mod lex;
 mod neg_eng;
 mod serve_eng;
 mod stream_eng;
+mod stress;
 
 fn main() {
     let a: Vec<String> = std::env::args().collect();
